@@ -24,10 +24,24 @@ Print Assumptions C15_tables_translated.
    language code, manufacturing date (minutes since 1996-01-01), every field's type,
    length, raw bytes and string, every record's type, version, end-of-list, length,
    payload and PICMG members. *)
-Theorem C15_parse_enc : forall s, wf_inv s = true ->
+Theorem C15_parse_enc_except_known : forall s, wf_inv s = true ->
   parse_inventory (enc_inventory s) = Ok (Some (view_inventory s)).
 Proof. exact parse_enc. Qed.
-Print Assumptions C15_parse_enc.
+Print Assumptions C15_parse_enc_except_known.
+
+(* Full-strength statement (NOT true of the code, known finding F15c):
+     forall s, wf_inv_full s = true -> exists inv, parse_inventory (enc_inventory s) = Ok (Some inv)
+                                                   /\ <records of inv = records of s>
+   where wf_inv_full admits every record type with 0..255 payload bytes.  wf_inv differs from
+   wf_inv_full ONLY in wf_rec: a record of type 0xC0 has >= 5 payload bytes, and >= 7 when its
+   4th payload byte is 0x27 - pyipmi decodes every type-0xC0 record as a PICMG record (and
+   0x27 as power module capability) by indexing past the record.  Witness: a 3-byte
+   type-0xC0 OEM record at the end of the image is rejected with DecodingError. *)
+Theorem C15_parse_enc_refuted :
+  exists s, wf_inv_full s = true /\ bytes_ok (enc_inventory s) = true /\
+            parse_inventory (enc_inventory s) = Err DecodingError.
+Proof. exact parse_enc_full_refuted. Qed.
+Print Assumptions C15_parse_enc_refuted.
 
 (* ... and that image is a byte string (every bound of wf_inv is needed for this) *)
 Theorem C15_enc_is_bytes : forall s, wf_inv s = true -> bytes_ok (enc_inventory s) = true.
